@@ -78,6 +78,9 @@ def gen_cases(tier, seed):
             g["h"] = float(g["h"] * rng.uniform(0.9, 1.1) / 3.0)          # (not rounded to six decimals)
             nref = int(rng.integers(1, 5))
         cases.append({"model": m, "grid": g, "refine": nref})
+    # the smallest numbers of points of the fixed-size constructor (0, 1: no room for -h and +h; 2, 3: one state on each side)
+    for nb in (0, 1, 2, 3, 4):
+        cases.append({"model": W.gen_model_spec(rng, exp=False), "grid": {"ctor": "fixed", "dim": 1 + nb % 2, "h": W.r6(W._logu(rng, 0.01, 0.2)), "n": nb}, "refine": 1})
     # hand-built grids, one array per axis with its own bounds (the base constructor)
     for i in range(4 if not thorough else 24):
         dim = 2 + (i % 2)
